@@ -302,6 +302,10 @@ def run(ctx):
     ctx.rule("R10.b2", "each evaluation of a bound coroutine function awaits the coroutine it created: the async wrapper(s) of reactive.bind start no task of their own (ensure_future / create_task "
                        "/ shield / gather) that evaluations could share", floor=1)
     bound_coroutine_awaits_its_own_evaluation(ctx, "R10.b2")
+    ctx.rule("R10.d2", "dependency model (shared with R09.m): an expression that joins two coroutine-driven branches depends on the internal trigger of BOTH (the one in its chain and the one of the "
+                       "branch passed as an argument): whichever completes last marks it dirty", floor=1)
+    from checks.rx_model import dependency_model
+    dependency_model(ctx, "R10.d2")
 
     # ------------------------------------------------------------- R10.j
     from checks.shared import syncing_set_replaced
